@@ -45,13 +45,49 @@ def h20a_cell(s, whitespace, no_header):
     vals = list(c.data[0].values())
     assert len(vals) == 2
     v = vals[0]
-    if isinstance(v, float):
+    if isinstance(v, (int, float)) and not isinstance(v, bool):
         cover("number")
         assert math.isfinite(v)
     else:
         cover("text")
         assert v == (squeeze(s) if whitespace else s)
     assert vals[1] == "x"
+
+
+REPRS = []
+
+
+def float_of_repr(eng, v=0.0):
+    """float() of the text the harness built as repr(x) is x (shortest-repr round trip, a CPython guarantee)"""
+    from pysym.values import LazyStr, SymStr
+    import z3
+    if isinstance(v, LazyStr):
+        v = eng.force_str(v)
+    if isinstance(v, SymStr):
+        for text, x in REPRS:
+            t = eng.force_str(text) if isinstance(text, LazyStr) else text
+            if len(t.cs) == len(v.cs) and all((a == b) if isinstance(a, int) or isinstance(b, int) else z3.eq(a.t, b.t)
+                                               for a, b in zip(t.cs, v.cs)):
+                return x
+    return m_float_precise(eng, v)
+
+
+def h20e_number_value(x, neg):
+    """a CSV cell holding the shortest spelling of a finite float becomes a number cell whose stored (decimal128) value
+    decodes to that float again - through the real converter coercion and the real cell codec"""
+    from numbers_parser.cell import Cell, _pack_decimal128, _unpack_decimal128
+    del REPRS[:]
+    if neg:
+        x = -x
+    s = repr(x)
+    REPRS.append((s, x))
+    c = converter(["A", "B"], [[s, "x"]])
+    c._transform_data()
+    v = list(c.data[0].values())[0]
+    assert isinstance(v, (int, float)) and not isinstance(v, bool)
+    assert v == x
+    cell = Cell._from_value(0, 0, v)
+    assert _unpack_decimal128(_pack_decimal128(cell.value)) == x
 
 
 def h20b_columns(h1, h2, h3, ncols):
@@ -124,7 +160,22 @@ def _cell(n):
                    stubs=STUBS, outside=OUT, models={float: m_float_precise})
 
 
-HARNESSES = [_cell(n) for n in (0, 1, 2, 3, 4)] + [
+NUM_Q = [(1, 0), (2, 1), (3, 0), (1, 15), (2, 17), (1, 22), (1, 33), (2, 35), (1, 38), (1, 60), (3, -2)]
+NUM_T = NUM_Q + [(n, e) for n in (1, 2, 3) for e in (-5, 2, 5, 10, 16, 20, 25, 30, 34, 36, 40, 100, 300)]
+
+
+def _num(n, e):
+    from pysym.api import DecFloatDom
+    return Harness(f"H20e-n{n}-e{e}", h20e_number_value, dict(x=DecFloatDom(n, e), neg=BoolDom()),
+                   bounds=f"every float whose shortest decimal form has {n} significant digits (symbolic) at decimal exponent {e}, "
+                          "both signs, spelled in a CSV cell the way repr() spells it",
+                   stubs=["float(text) = x for the text repr(x) (CPython's shortest-repr round trip); other texts as H20a",
+                          STUBS[1]],
+                   outside=OUT + ["other spellings of the same number (thousands commas, leading zeros, upper-case E)"],
+                   models={float: float_of_repr})
+
+
+HARNESSES = [_cell(n) for n in (0, 1, 2, 3, 4)] + [_num(n, e) for n, e in NUM_T] + [
     Harness("H20b", h20b_columns, dict(h1=StrDom(1), h2=StrDom(1), h3=StrDom(1), ncols=Cases([1, 2, 3])),
             bounds="1..3 columns whose header names are symbolic one-character strings (equal or not), two data rows",
             stubs=STUBS[1:], outside=OUT),
@@ -134,6 +185,7 @@ HARNESSES = [_cell(n) for n in (0, 1, 2, 3, 4)] + [
     Harness("H20c", h20c_rows, dict(reverse=BoolDom(), no_header=BoolDom()),
             bounds="3 rows x 2 columns, --reverse on/off, header / --no-header", stubs=STUBS[1:], outside=OUT),
 ]
-TIER_HARNESSES = {"quick": ["H20a-n0", "H20a-n1", "H20a-n2", "H20a-n3", "H20b", "H20c", "H20d"],
-                  "thorough": ["H20a-n0", "H20a-n1", "H20a-n2", "H20a-n3", "H20a-n4", "H20b", "H20c", "H20d"]}
+TIER_HARNESSES = {"quick": ["H20a-n0", "H20a-n1", "H20a-n2", "H20a-n3", "H20b", "H20c", "H20d"] + [f"H20e-n{n}-e{e}" for n, e in NUM_Q],
+                  "thorough": ["H20a-n0", "H20a-n1", "H20a-n2", "H20a-n3", "H20a-n4", "H20b", "H20c", "H20d"] +
+                              [f"H20e-n{n}-e{e}" for n, e in NUM_T]}
 PROPERTY = "C20"
